@@ -304,6 +304,8 @@ def check(res, tr, how):
             res.violate("fired-twice/AlreadyCalledError", e[3][-500:])
         else:
             res.ev("diag_reactor_event_raised_" + e[2])
+    for (where_, stack_, _did) in getattr(tr, "second_firings", ()):
+        res.ev("diag_second_firing_attempted_" + where_)
     for u in tr.unhandled:
         res.ev("diag_unhandled_failure_" + u[0])
     # the stream oracle stays on
